@@ -57,6 +57,8 @@ def run_history(ld, n, limited, mem, ops, keyed):
         calls[i] += 1
         return [i, [c]]            # nested: a consumer that modifies what it got must not reach the cached example
     keys = [gen_a.KEYS[i] for i in range(n)]
+    if keyed:
+        common.unrelated_cache_traffic(ld, keys)        # other caches of the process hold the same keys elsewhere
     src = ld.new(dict(zip(keys, range(n)))) if keyed else ld.new(list(range(n)))
     up = src.map(fn)
     with warnings.catch_warnings():
